@@ -2,7 +2,7 @@
 
 PROPERTIES = {
     "C11": dict(
-        modules=["rvltl"],
+        modules=["rvltl", "temporal"],
         level="proof",
         claim="",
         note="",
